@@ -47,7 +47,8 @@ type barInfo struct {
 	op        *Op
 	created   bool
 	whenFired bool
-	lateFills int // Fill calls since the done channel was closed (for a fault "at the k-th final frame")
+	lateFills int          // Fill calls since the done channel was closed (for a fault "at the k-th final frame")
+	termFills atomic.Int32 // Fill calls that saw the bar completed or aborted
 }
 
 type run struct {
@@ -565,6 +566,9 @@ func flagsOf(s decor.Statistics) string {
 func (r *run) mkFiller(bi *barInfo) mpb.BarFiller {
 	return mpb.BarFillerFunc(func(w io.Writer, s decor.Statistics) error {
 		bi.fills++
+		if s.Completed || s.Aborted {
+			bi.termFills.Add(1)
+		}
 		if f := bi.op.Fault; f != nil && f.At < 0 && r.isDoneClosed() {
 			bi.lateFills++ // Fill calls since the done channel was closed
 		}
@@ -621,6 +625,11 @@ func (r *run) eligible(g *gate) bool {
 	op := &r.sc.Clients[g.client][g.opIdx]
 	r.mu.Lock()
 	defer r.mu.Unlock()
+	if w := op.When; w != nil {
+		if bi := r.bars[w.B]; bi == nil || int(bi.termFills.Load()) < w.TF {
+			return false
+		}
+	}
 	switch op.Op {
 	case "add":
 		if op.After != "" {
